@@ -115,9 +115,37 @@ def _to_int_poly(p):
     return [(m, c.numerator * (den // c.denominator)) for m, c in p.items()], den
 
 
+class WorkLimit(Exception):
+    """the term-product budget of a bounded evaluation is used up (deterministic: counted in monomial products, not in time)"""
+
+
+_WORK = [0, None]          # [term products so far, limit or None]
+
+
+class work_limit:
+    """with work_limit(n): ...  -- polynomial multiplications inside the block may form at most n monomial products in total;
+    beyond that WorkLimit is raised.  Used where an evaluation is an optional refinement whose cost is not known in advance."""
+
+    def __init__(self, n):
+        self.n = n
+
+    def __enter__(self):
+        self.saved = list(_WORK)
+        _WORK[0], _WORK[1] = 0, self.n
+        return self
+
+    def __exit__(self, *exc):
+        _WORK[0], _WORK[1] = self.saved
+        return False
+
+
 def p_mul(p, q):
     if not p or not q:
         return {}
+    if _WORK[1] is not None:
+        _WORK[0] += len(p) * len(q)
+        if _WORK[0] > _WORK[1]:
+            raise WorkLimit()
     if len(p) == 1:
         (m1, c1), = p.items()
         if m1 == ONE and c1 == 1:
@@ -394,9 +422,17 @@ class Rat:
     def const_value(self):
         return p_const_value(self.num) / p_const_value(self.den)
 
+    def same(self, o):
+        """identical normal forms"""
+        return (self - as_rat(o)).is_zero()
+
     def equals(self, o):
-        o = as_rat(o)
-        return (self - o).is_zero()
+        """equal values: identical normal forms, or identical after the double-angle relations between the sines and cosines
+        that occur (sin 2x = 2 sin x cos x, cos 2x = 1 - 2 sin^2 x whenever x and 2x both occur as arguments)"""
+        d = self - as_rat(o)
+        if d.is_zero():
+            return True
+        return _double_angle_zero(d, 3)
 
     def atoms(self):
         return p_atoms(self.num) | p_atoms(self.den)
@@ -569,10 +605,40 @@ def sqrt_of(r: Rat) -> Rat:
     return outside * Rat.atom(a)
 
 
+def _double_angle_zero(d, depth):
+    """d == 0 after rewriting sin(A), cos(A) through the half angle for every A such that A/2 is an argument too"""
+    trig = [(a, ATOM_ARGS[a]) for a in d.atoms() if a in ATOM_ARGS and ATOM_ARGS[a][0] in ("sin", "cos") and len(ATOM_ARGS[a][1]) == 1]
+    if len(trig) < 2:
+        return False
+    args = []
+    for _a, (_nm, ar) in trig:
+        if not any(ar[0].same(x) for x in args):
+            args.append(ar[0])
+    mapping = {}
+    for a, (nm, ar) in trig:
+        A = ar[0]
+        for B in args:
+            if B is A or not (A - 2 * B).is_zero():
+                continue
+            sB, cB = func_atom("sin", B), func_atom("cos", B)
+            mapping[a] = 2 * sB * cB if nm == "sin" else 1 - 2 * sB * sB
+            break
+    if not mapping:
+        return False
+    d2 = d.subs(mapping)
+    if d2.is_zero():
+        return True
+    return depth > 1 and _double_angle_zero(d2, depth - 1)
+
+
 def func_atom(name: str, *args) -> Rat:
     args = [as_rat(a) for a in args]
+    if name == "abs" and len(args) == 1 and args[0].num:
+        # |x| = |-x|: one atom for both (the argument is stored with a positive leading coefficient)
+        if args[0].num[_sorted_monos(args[0].num)[0]] < 0:
+            args[0] = -args[0]
     for a, (nm, ar) in ATOM_ARGS.items():
-        if nm == name and len(ar) == len(args) and all(x.equals(y) for x, y in zip(ar, args)):
+        if nm == name and len(ar) == len(args) and all(x.same(y) for x, y in zip(ar, args)):
             return Rat.atom(a)
     a = "%s(%s)" % (name, ",".join(x.key() for x in args))
     ATOM_ARGS[a] = (name, args)
